@@ -19,11 +19,14 @@ def run(chk, replay):
     if replay and "cmd_case" in json.load(open(replay)).get("case", {}):
         import x_c15_cmd
         x_c15_cmd.run(chk, PROP, only=json.load(open(replay))["case"]["cmd_case"]); return
+    if replay and "resolver_case" in json.load(open(replay)).get("case", {}):
+        import x_resolver
+        x_resolver.stream(chk, PROP, json.load(open(replay))["case"]); return
     chk.trusted = common.TRUSTED_COMMON + ["quiescence discipline of the scheduler harness (one completion released at a time)"]
     chk.assumptions = [sched.NOTES.get(PROP, "")]
     common.lean_obligations(chk, "BdModel/Props/%s.lean" % PROP,
                             {"Sched": sched.SCHED_TIE, "Graph": sched._ties_of("Graph"), "Agent": tie_names("Agent"), "Load": sched.LOAD_TIES_FOR_SCHED},
-                            extra_targets=["BdModel.Sched.Tables"])
+                            extra_targets=["BdModel.Sched.Tables"], extra_props=["BdModel/Props/C15Config.lean"])
     sched.run_stream(chk, PROP, replay)
     sched.yaml_stream(chk, PROP, replay)
     if not replay:
@@ -38,3 +41,7 @@ def run(chk, replay):
         # cfg.BaseConfig -> dag.Load), per home-directory layout (lib/x_c15_cmd.py; uses no PRNG)
         import x_c15_cmd
         x_c15_cmd.run(chk, PROP)
+        # the configuration resolver inside the model: real config.Load() = Lean Config.Resolver on ~110 environments, and the
+        # rule "the legacy directory wins" monitored on the real answers (lib/x_resolver.py; uses no PRNG)
+        import x_resolver
+        x_resolver.stream(chk, PROP)
